@@ -697,6 +697,9 @@ class Resolver:
                 and self.fn.params()[:1] == ["cls"]
             ):
                 return self.fn.cls.qname
+            cv = self._class_valued(expr.func, depth)
+            if cv is not None:
+                return cv
             q = self.callee_qname(expr)
             if q is None:
                 # `self.factory(...)` where the class declares `factory: type[C] = C`
@@ -773,6 +776,40 @@ class Resolver:
                         if t:
                             return t
             return None
+        return None
+
+    def _class_valued(self, e: ast.expr, depth: int = 3) -> Optional[str]:
+        """e evaluates to a class taken from a dispatch table (`TABLE[k]` / `TABLE.get(k)`, TABLE a module-level dict of
+        classes): the common base of the table's classes, so that a call on the instance dispatches to every entry."""
+        if depth <= 0:
+            return None
+        if isinstance(e, ast.Name) and e.id not in self.fn.params():
+            sa = self.single_assignments()
+            if e.id in sa:
+                return self._class_valued(sa[e.id], depth - 1)
+            return None
+        table = None
+        if isinstance(e, ast.Subscript):
+            table = e.value
+        elif isinstance(e, ast.Call) and isinstance(e.func, ast.Attribute) and e.func.attr == "get" and e.args:
+            table = e.func.value
+        if not isinstance(table, ast.Name) or table.id not in self.mod.constants:
+            return None
+        node = self.mod.assign_nodes.get(table.id)
+        if isinstance(node, ast.AnnAssign):
+            ann = node.annotation
+            if isinstance(ann, ast.Subscript) and isinstance(ann.slice, ast.Tuple) and len(ann.slice.elts) == 2:
+                v = ann.slice.elts[1]
+                if isinstance(v, ast.Subscript) and (dotted_name(v.value) or "").split(".")[-1] in ("type", "Type"):
+                    t = self._ann_to_type(v)
+                    if t in self.prog.classes:
+                        return t
+        val = self.mod.constants.get(table.id)
+        if isinstance(val, ast.Dict) and val.values:
+            qs = [self.prog.resolve_expr_name(self.mod, v) for v in val.values]
+            if all(q in self.prog.classes for q in qs):
+                common = [c for c in self.prog.mro(qs[0]) if all(c in self.prog.mro(q) for q in qs)]
+                return common[0] if common else None
         return None
 
     def callee_qname(self, call: ast.Call) -> Optional[str]:
@@ -924,6 +961,9 @@ class CallGraph:
         self.n_calls = 0
         self.n_resolved = 0
         for fn in prog.functions.values():
+            if fn.absorbed:
+                self.edges.setdefault(fn.qname, set())  # every call site was inlined: its body lives on in its callers
+                continue
             self._scan(fn)
 
     def _scan(self, fn: FuncInfo):
